@@ -35,6 +35,15 @@ CHECKS = {
          "they remove and are never stored; no duplicates and no TTL-0 record in any reachable cache (arbitrary, even late, firings). "
          "Tie and monitor as for C05.",
          "DESIGN.md section 4 (C05/C06/C18)", "Rocq proof of addRecord's shape and reachable-state invariants + SrcFacts decision-expression regeneration + differential correspondence + monitor"),
+ "C01": ("Theorem C01_name_roundtrip_partial (Properties_C01.v): for every buffer written so far, every compression map satisfying the "
+         "invariant MapOK (each entry maps a suffix to an offset below 16 KiB where that suffix is conformantly encoded) and every "
+         "well-formed name, writeName appends a conformant encoding (relation NameAt, with compression pointers to earlier "
+         "occurrences), advances the offset by the bytes appended, re-establishes MapOK, and the library's own parseName reads the "
+         "bytes back as exactly that name. The record and message layers are tied per run: the model's to_packet is compared byte for "
+         "byte with the real toPacket on generated well-formed messages (suffix-sharing names incl. letter-case variants, boundary "
+         "TTLs, TXT/NSEC shapes, hundreds of records), an independent strict RFC 1035/6762 decoder must read the real bytes back as the "
+         "message, and so must the real fromPacket.",
+         "DESIGN.md section 4 (C01)", "Rocq proof of the name writer w.r.t. the relational wire spec, composed with the decoder-completeness theorem + byte-exact differential correspondence + independent reference decoder"),
  "C02": ("Theorem (Properties_C02.v, partial): for every placement of compression pointers that RFC 1035 allows (relation NameAt: pointer to "
          "any earlier offset where the remaining labels are encoded, chains of any length, any label bytes) parseName returns exactly the "
          "name and the in-place end offset. The record and message layers are tied, not yet proved: an independent reference encoder "
